@@ -283,12 +283,21 @@ def gen_snapshot(out_path):
                     "count": n1, "why": "Verus has no raw-pointer dereference; the stand-in returns a reference to an atomic whose loads are unconstrained"})
         log.append({"item": "fn snapshot (body)", "rewrite": "`unsafe { self.ceb_shm.read_volatile() }` -> `self.ceb_shm.read_volatile()`",
                     "count": n2, "why": "the stand-in's read_volatile is an external function without postcondition (arbitrary record)"})
+        # the local that holds the generation the call is about to accept: `let mut <x> = <atomic>.load(..)`
+        tracked = re.findall(r"let mut ([a-z_][a-z0-9_]*) = [a-z_][a-z0-9_]*\.load\(", body)
+        calls_helper = any(len(re.findall(r"^(?:pub(?:\([a-z]+\))? )?(?:const )?fn %s\s*[(<]" % re.escape(nm), src, re.M)) == 1
+                           for nm in set(re.findall(r"(?<![.\w:])([a-z_][a-z0-9_]*)\(", body)))
+        # the parity clause is generated only when the parity tests are inline (a helper without contract
+        # would make the clause unprovable for a reason that has nothing to do with the property)
+        parity_var = tracked[0] if len(tracked) == 1 and not calls_helper else None
+        def parity_inv(ind):
+            return (f"{ind}        {parity_var} % 2 == 0, //@ C18.verus.a_newly_cached_generation_is_even\n") if parity_var else ""
         # loop contract spliced between the loop header and its body
         m = list(re.finditer(r"^([ \t]*)while ([a-z_][a-z0-9_]*) > 0 \{[ \t]*$", body, re.M))
         mf = list(re.finditer(r"^([ \t]*)for ([a-z_][a-z0-9_]*) in 0\.\.([A-Za-z0-9_]+) \{[ \t]*$", body, re.M))
         if len(m) == 1 and not mf:
             ind, var = m[0].group(1), m[0].group(2)
-            body = body[:m[0].start()] + f"{ind}while {var} > 0\n{ind}    invariant {var} <= 1_000_000, self.snapshot_ceb == old(self).snapshot_ceb, self.snapshot_gen == old(self).snapshot_gen,\n{ind}    decreases {var},\n{ind}{{" + body[m[0].end():]
+            body = body[:m[0].start()] + f"{ind}while {var} > 0\n{ind}    invariant {var} <= 1_000_000, self.snapshot_ceb == old(self).snapshot_ceb, self.snapshot_gen == old(self).snapshot_gen,\n" + parity_inv(ind) + f"{ind}    decreases {var},\n{ind}{{" + body[m[0].end():]
             log.append({"item": "fn snapshot (body)", "rewrite": f"loop contract `invariant {var} <= 1_000_000, cache unchanged so far; decreases {var}` spliced after the header of `while {var} > 0`",
                         "count": 1, "why": "inductive invariant / termination measure of the retry loop (the only annotation inside the body)"})
         elif len(mf) == 1 and not m:
@@ -296,7 +305,7 @@ def gen_snapshot(out_path):
             # the cache invariant is needed
             ind, var, hi = mf[0].group(1), mf[0].group(2), mf[0].group(3)
             var2 = var if var != "_" else "_verif_i"
-            body = body[:mf[0].start()] + f"{ind}for {var2} in 0..{hi}\n{ind}    invariant self.snapshot_ceb == old(self).snapshot_ceb, self.snapshot_gen == old(self).snapshot_gen,\n{ind}{{" + body[mf[0].end():]
+            body = body[:mf[0].start()] + f"{ind}for {var2} in 0..{hi}\n{ind}    invariant self.snapshot_ceb == old(self).snapshot_ceb, self.snapshot_gen == old(self).snapshot_gen,\n" + parity_inv(ind) + f"{ind}{{" + body[mf[0].end():]
             log.append({"item": "fn snapshot (body)", "rewrite": f"loop contract `invariant cache unchanged so far` spliced after the header of `for {var} in 0..{hi}` (a loop over a finite range needs no termination measure)",
                         "count": 1, "why": "inductive invariant of the retry loop (the only annotation inside the body)"})
         else:
@@ -316,7 +325,17 @@ def gen_snapshot(out_path):
             helpers.append(src[st:en])
             log.append({"item": f"fn {name}", "rewrite": "free helper function called by snapshot, copied verbatim (no contract)", "count": 1,
                         "why": "so that a sub-expression moved into a helper keeps verifying"})
-        parts = {"SIG:shm.snapshot": sig, "BODY:shm.snapshot": body,
+        even_clause = ""
+        if parity_var:
+            even_clause = ("        res is Ok ==> ((final(self).snapshot_gen == old(self).snapshot_gen && final(self).snapshot_ceb == old(self).snapshot_ceb)"
+                           " || final(self).snapshot_gen % 2 == 0), //@ C18.verus.a_newly_cached_generation_is_even")
+            log.append({"item": "fn snapshot (body)", "rewrite": f"loop invariant `{parity_var} % 2 == 0` spliced into the loop contract", "count": 1,
+                        "why": "inductive invariant for the clause 'a newly cached generation is even' (unbounded, adversarial segment)"})
+        else:
+            log.append({"item": "fn snapshot (body)", "rewrite": "clause C18.verus.a_newly_cached_generation_is_even NOT generated", "count": 0,
+                        "why": "the local holding the candidate generation could not be identified, or the parity test sits in a helper without contract; "
+                               "the bounded Kani obligation C18.snapshot.accepts_only_even_generation still covers it"})
+        parts = {"SIG:shm.snapshot": sig, "BODY:shm.snapshot": body, "ITEM:shm.even_clause": even_clause,
                  "ITEM:shm.consts": "\n".join(x for x in [module_consts(src, log)] + helpers if x)}
         out = fill(open(os.path.join(VERIF, "verus", "snapshot.rs.tmpl")).read(), parts)
     except ex.ExtractError as err:
